@@ -117,6 +117,50 @@ def judge(s, docs, allow_incomplete, how, cfg, vec, tmpdir):
         s.samples.append(det)
 
 
+def judge_reused_list(s, docs, cfg, vec):
+    """The public constructor MosCollection(readers) over ONE list object, shown to it several times (a strict
+    attempt, then a retry that allows an incomplete collection, then the strict one again): every verdict is
+    the one the list deserves - validating a list must not consume it."""
+    import mosromgr.moscollection as mcmod
+    from xml.etree import ElementTree as ET
+    from ..spec import classify_doc
+    from .. import events as EV
+    classes = [classify_doc(ET.fromstring(d)) for d in docs]
+    roids = set()
+    for d in docs:
+        for c in ET.fromstring(d):
+            r = c.find('roID')
+            if r is not None:
+                roids.add(r.text)
+    n_c, n_d = classes.count('RunningOrder'), classes.count('RunningOrderEnd')
+    EV.STATE['quiet'] = EV.STATE.get('quiet', 0) + 1
+    try:
+        try:
+            readers = sorted(mcmod.MosReader.from_string(d) for d in docs)
+        except Exception:
+            return
+        got = []
+        for allow in (False, True, False):
+            try:
+                mcmod.MosCollection(readers, allow_incomplete=allow)
+                got.append('accepted')
+            except Exception as e:
+                got.append(type(e).__name__)
+    finally:
+        EV.STATE['quiet'] -= 1
+    want = []
+    for allow in (False, True, False):
+        ok = len(docs) >= 1 and len(roids) == 1 and n_c == 1 and n_d <= 1 and (allow or n_d == 1)
+        want.append('accepted' if ok else 'InvalidMosCollection')
+    s.evaluations += 1
+    s.note_sig((cfg, 'reused-list', vec, tuple(want), got == want))
+    s.hist['reused_list_cases'] += 1
+    if got != want:
+        s.custom_violation('validation-outcome-differs', {'config': cfg, 'counts': vec, 'same_list_shown': ['strict', 'allow_incomplete', 'strict'],
+                                                          'expected': want, 'got': got},
+                           {'type': 'validate-reused', 'docs': docs}, status=cfg + '/reused-list')
+
+
 def run(s):
     q = s.tier == 'quick'
     cfg = os.environ.get('VERIF_CFG', 'default')
@@ -143,6 +187,8 @@ def run(s):
                     if how == 's3' and not docs:
                         pass
                     judge(s, docs, allow, how, cfg, (n_c, n_d, n_o, n_r, two), tmpdir)
+                if allow is False and order == 0 and docs:
+                    judge_reused_list(s, docs, cfg, (n_c, n_d, n_o, n_r, two))
         # the same verdicts through `mosromgr merge`: status 2 exactly for the rejected collections
         import contextlib, io
         import mosromgr.cli as cli
@@ -200,6 +246,8 @@ def run(s):
 
 def replay(s, data):
     w = data['witness']
+    if w.get('type') == 'validate-reused':
+        return judge_reused_list(s, w['docs'], os.environ.get('VERIF_CFG', 'default'), 'replay')
     tmpdir = tempfile.mkdtemp(prefix='verif-c11-')
     try:
         judge(s, w['docs'], w['allow_incomplete'], w.get('how', 'strings'), os.environ.get('VERIF_CFG', 'default'),
